@@ -164,6 +164,9 @@ namespace hv
         struct FailOnG { static constexpr auto name = "ho_fail_on_g"; static P compose(Wiring &w, P ts) { return wire<NFailOn>(w, ts); } };
         struct PulseFailG { static constexpr auto name = "ho_pulse_fail_g"; static P compose(Wiring &w, P ts) { return wire<NFailOn>(w, wire<NPulse>(w, ts)); } };
         struct Add2G { static constexpr auto name = "ho_add2_g"; static P compose(Wiring &w, P ts, P b) { return wire<NAdd2>(w, ts, b); } };
+        // a self-scheduling node on the first multiplexed argument, combined with the second one: a child alarm is pending
+        // while the membership of the *second* dictionary changes (the child is re-bound, the key set does not tick)
+        struct TickAdd2G { static constexpr auto name = "ho_tick_add2_g"; static P compose(Wiring &w, P ts, P b) { return wire<NAdd2>(w, wire<NTickAfter>(w, ts), b); } };
         struct ConstSourceG { static constexpr auto name = "ho_const_source_g"; static P compose(Wiring &w, P ts) { (void)ts; return wire<NConstSource>(w); } };
         struct ChainG
         {   // two stateful nodes in one child (dynamic child with several nodes alive)
@@ -254,6 +257,7 @@ namespace hv
             if (f == "FailOn") return fn<FailOnG>();
             if (f == "PulseFail") return fn<PulseFailG>();
             if (f == "Add2") return fn<Add2G>();
+            if (f == "TickAdd2") return fn<TickAdd2G>();
             if (f == "ConstSource") return fn<ConstSourceG>();
             if (f == "Chain") return fn<ChainG>();
             throw std::invalid_argument("higher_order: unknown function " + f);
